@@ -9,17 +9,67 @@ package main
 import (
 	"bufio"
 	"encoding/json"
+	"net"
 	"os"
 	"sort"
 	"testing"
 
 	"github.com/EdgeCast/vflow/ipfix"
+	netflow9 "github.com/EdgeCast/vflow/netflow/v9"
 )
+
+// imTraffic: what exporters may send - templates that use field types / elements the model does not know (vendor
+// proprietary ones, with and without an enterprise number), and data records of them; decoded by the real decoders.
+func imTraffic() {
+	u16 := func(v int) []byte { return []byte{byte(v >> 8), byte(v)} }
+	exp := net.IP{192, 0, 2, 77}
+	// NetFlow v9: template 300 = [8/4, 65/4, 40005/2, 500/1, 32773/4], two records
+	var tpl, data []byte
+	types := [][2]int{{8, 4}, {65, 4}, {40005, 2}, {500, 1}, {32773, 4}}
+	tpl = append(tpl, u16(300)...)
+	tpl = append(tpl, u16(len(types))...)
+	rl := 0
+	for _, f := range types {
+		tpl = append(append(tpl, u16(f[0])...), u16(f[1])...)
+		rl += f[1]
+	}
+	for i := 0; i < 2*rl; i++ {
+		data = append(data, byte(i+1))
+	}
+	pad := (4 - (4+len(data))%4) % 4
+	hdr := func(n int) []byte { return append(append([]byte{0, 9}, u16(n)...), make([]byte, 16)...) }
+	set := func(id int, body []byte, pad int) []byte {
+		return append(append(append(u16(id), u16(4+len(body)+pad)...), body...), make([]byte, pad)...)
+	}
+	c9 := netflow9.GetCache("")
+	netflow9.NewDecoder(exp, append(hdr(1), set(0, tpl, 0)...)).Decode(c9)
+	netflow9.NewDecoder(exp, append(hdr(2), set(300, data, pad)...)).Decode(c9)
+	// IPFIX: template 301 = [8/4, 65/4 unknown?, 999/2, enterprise 4242 element 7/4], two records
+	var itpl, idata []byte
+	itpl = append(append(itpl, u16(301)...), u16(4)...)
+	for _, f := range [][2]int{{8, 4}, {470, 4}, {999, 2}} {
+		itpl = append(append(itpl, u16(f[0])...), u16(f[1])...)
+	}
+	itpl = append(append(append(itpl, u16(0x8000|7)...), u16(4)...), 0, 0, 0x10, 0x92)
+	for i := 0; i < 2*14; i++ {
+		idata = append(idata, byte(i+3))
+	}
+	imsg := func(sets []byte) []byte {
+		h := append([]byte{0, 10}, u16(16+len(sets))...)
+		return append(append(h, make([]byte, 12)...), sets...)
+	}
+	ci := ipfix.GetCache("")
+	ipfix.NewDecoder(exp, imsg(set(2, itpl, 0))).Decode(ci)
+	ipfix.NewDecoder(exp, imsg(set(301, idata, 0))).Decode(ci)
+}
 
 func TestVerifCollectorInfoModel(t *testing.T) {
 	out := os.Getenv("VERIF_OUT")
 	if out == "" {
 		t.Skip("driver: VERIF_OUT not set")
+	}
+	if os.Getenv("VERIF_TRAFFIC") == "1" {
+		imTraffic()
 	}
 	names := map[ipfix.FieldType]string{}
 	for n, v := range ipfix.FieldTypes {
